@@ -75,6 +75,9 @@ CHECKS = {
  'C39': (['asan'], 'event-log monitor: free_symbols / has_symbol / function_symbols / atoms compared with an independent walk of the tree dump using the binding rule of Subs; coeff judged by reconstruction (sum coeff*x**n eq p) through the library eq',
          'Expressions with function symbols, Derivative and Subs nodes (directly built and library-produced), relationals and Piecewise; polynomials and Laurent polynomials with symbolic coefficients.',
          'Set-builder dummies (ImageSet/ConditionSet) are not generated; atoms clauses are judged on binder-free expressions only.', 'DESIGN.md 3/C39'),
+ 'C34': (['asan'], 'event-log monitor: every definite answer of 17 property queries is tested against assignments drawn from the assumption set; properties of the value decided exactly over Gaussian rationals, or by mpmath with a 1e-10 margin; is_polynomial against the structural definition',
+         'Random expressions under 13 consistent assumption sets per symbol; a definite answer is refuted only by a decidable witness (sound, intentionally incomplete).',
+         'Irrationality/algebraicity claims are refuted only through the exact path; is_rational/is_irrational (no assumption argument) judged on symbol-free inputs.', 'DESIGN.md 3/C34'),
 }
 
 def main():
